@@ -349,6 +349,70 @@ def typing_any():
     return typing.Any
 
 
+
+def _leafpart_job(job):
+    """Structure names with NON-TRIVIAL leaf types: leaves that are themselves containers
+    (tuple[int,int]) and leaves accepted by the second alternative of a union whose first
+    alternative fails on shape.  T is bound by a first real check of t, then x is checked
+    against every single-name form; verdicts (and 'T is bound') against the reference
+    vf/refs/leaftypes.pytree_check."""
+    common.bind_repo()
+    from .. import adapter, specs
+    from ..refs import leaftypes as rl
+
+    A3, A4 = ["duck", [3]], ["duck", [4]]
+    families = {
+        "tuple[int,int]": (["tuple", [["int"], ["int"]]], [["tuple", [["lit", 1], ["lit", 2]]]]),
+        "Union[F[3],F[4]]": (["union", [["arr", "3"], ["arr", "4"]]], [A4, A3]),
+        "Union[F[a 3],F[b a]]": (["union", [["arr", "a 3"], ["arr", "b a"]]], [["duck", [2, 5]]]),
+    }
+    forms = ["T", "T ...", "... T", "T T"]
+    viols, n = [], 0
+    samples = []
+    for fname, (L, leaves) in families.items():
+        if fname not in job["families"]:
+            continue
+        ts = trees.trees(leaves, 1, [("tuple", "list", "dict")], 2, with_none=False)
+        xs = trees.trees(leaves[:1], 2, [("tuple", "list"), ("tuple",)], 2, with_none=True)
+        for ti, tspec in enumerate(ts):
+            if ti % job["n"] != job["k"]:
+                continue
+            ann_t = specs.build_ann(["pytree", L, "T"])
+
+            def body():
+                nonlocal n
+                tval = specs.build_val(tspec)
+                ctx = ({}, {}, {})
+                v, ctx2, allowed = rl.pytree_check(tval, ["pytree", L, "T"], ctx)
+                got = adapter.check(tval, ann_t)
+                n += 1
+                if len(allowed) == 1 and got not in allowed:
+                    return ("bind", tspec, None, f"first use of T on {tspec}: {got!r}, reference {sorted(map(str, allowed))}")
+                if v is not True or got is not True:
+                    return None
+                ctx = ctx2
+                if "T=" not in adapter.bindings_text():
+                    return ("T-not-bound", tspec, None, f"PyTree[{fname},'T'] accepted {tspec} but T is not among the bindings: {adapter.bindings_text()!r}")
+                for xspec in xs:
+                    for form in forms:
+                        xval = specs.build_val(xspec)
+                        ev, ectx, eallowed = rl.pytree_check(xval, ["pytree", L, form], ctx)
+                        g = adapter.check(xval, specs.build_ann(["pytree", L, form]))
+                        n += 1
+                        if len(eallowed) == 1 and g not in eallowed:
+                            return (f"{form}:verdict", tspec, xspec, f"leaf type {fname}: T bound on {tspec}; X={xspec} against {form!r} answered {g!r}, reference {sorted(map(str, eallowed))}")
+                        if g is True and ev is True:
+                            ctx = ectx
+                return None
+
+            bad = adapter.in_context(body)
+            if bad is not None:
+                viols.append(Violation(key=f"C09:leaftype:{fname}:{bad[0]}", what=bad[3], replay=dict(kind="leafpart", family=fname)).to_json())
+            elif len(samples) < 1 and fname.startswith("tuple"):
+                samples.append(dict(leaf_type=fname, T=tspec, candidates=len(xs), forms=forms))
+    return n, viols, samples
+
+
 # ---- structure strings ---------------------------------------------------------
 
 PIECES = ["T", "S", "...", "1x", "T,", "...T", "", "a.b", "é"]
@@ -441,6 +505,11 @@ def run(ctx):
     stats = common.merge_counts(o[0] for o in outs)
     viols = [Violation(**v) for o in outs for v in o[1]]
     samples = [s for o in outs for s in o[2]][:5]
+    lp = common.pmap(_leafpart_job, [dict(families=list(f), n=4, k=k) for f in (["tuple[int,int]"], ["Union[F[3],F[4]]", "Union[F[a 3],F[b a]]"]) for k in range(4)])
+    for ln, lv, ls in lp:
+        viols += [Violation(**v) for v in lv]
+        stats["transitions"] += ln
+        samples += ls
     mn, mv = mutation_part()
     viols += [Violation(**v) for v in mv]
     stats["transitions"] += 4 * mn
@@ -476,6 +545,9 @@ def replay(rep):
     from .. import adapter, specs
     from ..refs import pytrees as rpt
 
+    if rep["kind"] == "leafpart":
+        n, v, _ = _leafpart_job(dict(families=[rep["family"]], n=1, k=0))
+        return dict(violations=[x["what"] for x in v][:4], violates=bool(v))
     if rep["kind"] == "mutation":
         n, v = mutation_part()
         return dict(violations=[x["what"] for x in v][:4], violates=bool(v))
